@@ -106,13 +106,12 @@ Proof. destruct r as [a|e| |]; cbn [bind]; intros H; try discriminate H. exists 
 (** ** function calls *)
 Lemma resolve_fn_prefixed ns p l k local : resolve_fn ns (QPrefixed p l) k = Ok local -> False.
 Proof.
-  unfold resolve_fn, expanded_name. destruct (ns_lookup ns (Some p)) as [u|]; cbn [bind]; intros H; discriminate H.
+  unfold resolve_fn, fn_key, expanded_name. destruct (ns_lookup ns (Some p)) as [u|]; cbn [bind]; intros H; discriminate H.
 Qed.
 
 Lemma resolve_fn_unprefixed ns name k local : resolve_fn ns (QUnprefixed name) k = Ok local -> local = name.
 Proof.
-  unfold resolve_fn, expanded_name. cbn [bind].
-  destruct (ns_lookup ns None) as [u|]; [intros H; discriminate H|].
+  unfold resolve_fn, fn_key. cbn [bind].
   destruct (find_func name) as [[mn mx]|]; [|intros H; discriminate H].
   destruct ((k <? mn) || match mx with Some m => m <? k | None => false end); intros H; [discriminate H|].
   injection H as H. symmetry. exact H.
